@@ -51,6 +51,10 @@ enum Op {
     RouteRefresh,
     /// toggle the global export policy (none <-> reject prefix P2) without telling anybody
     PolicySwap,
+    /// (late-observer packs) the neighbour's session comes up now and is held right after
+    /// on_established(): the initial dump is buffered, the peer channel registered, nothing
+    /// flushed; RIB changes until the next sync are delivered BEFORE the first flush
+    ConnectHeld,
     Sync,
 }
 
@@ -67,6 +71,7 @@ fn op_name(o: &Op) -> String {
         Op::SoftResetOut => "soft_reset_out".into(),
         Op::RouteRefresh => "route_refresh(from neighbour)".into(),
         Op::PolicySwap => "export_policy_swap".into(),
+        Op::ConnectHeld => "neighbour_session_established(held before its first flush)".into(),
         Op::Sync => "sync".into(),
     }
 }
@@ -81,6 +86,8 @@ pub(crate) struct PipeModel {
     nets: Vec<packet::Nlri>,
     /// which export policy the policy-swap op installs: false = reject LOCAL_PREF 100, true = set MED 77
     policy_sets_med: bool,
+    /// the observing session is not up initially; it is brought up by the ConnectHeld op
+    late: bool,
 }
 
 type Mirror = BTreeMap<(String, u32), (String, Option<IpAddr>)>;
@@ -110,8 +117,22 @@ pub(crate) struct Sys {
     dirty: bool,
     /// kinds of the ops applied since the last sync (shape class of a violation found at the next sync)
     since_sync: BTreeSet<&'static str>,
+    /// the ops applied since the last sync, in order: they determine what sits in the session's
+    /// peer channel / pending queues (and, for a held session, in its buffered initial dump)
+    unsynced: Vec<String>,
+    /// a second listener on the TableManager's change stream: what it receives between two
+    /// syncs is exactly what queues up in the observing session's peer channel
+    tap: mpsc::UnboundedReceiver<ToPeerEvent>,
     broken: BTreeSet<String>,
     dead: bool,
+}
+
+impl Drop for Sys {
+    fn drop(&mut self) {
+        // a session still held at the gate dies with the runtime; its gate entry must not
+        // outlive the daemon (the key is the TableManager's address, which can be re-used)
+        crate::verif::gate::forget(Arc::as_ptr(&self.d.tables) as usize, OBS);
+    }
 }
 
 fn nh(i: u8) -> bgp::Nexthop {
@@ -358,10 +379,14 @@ impl Model for PipeModel {
         let rt = runtime();
         let d = Daemon::new(self.shards);
         let p1 = self.peer_params(OBS);
+        let late = self.late;
         let conn = rt.block_on(async {
             {
                 let mut g = d.global.write().await;
                 g.add_peer(p1, None).expect("add_peer");
+            }
+            if late {
+                return None;
             }
             let Ok(Some(mut c)) = connect(&d, OBS, crate::fsm::Role::Passive).await else { return None };
             match c.establish(self.peer_asn(), 0x0a0a0a0a, 90, self.peer_caps()).await {
@@ -369,7 +394,8 @@ impl Model for PipeModel {
                 _ => None,
             }
         });
-        let dead = conn.is_none();
+        let tap = d.tables.register_peer(IpAddr::V4(Ipv4Addr::new(127, 0, 9, 9)), FnvHashSet::default(), |_| {});
+        let dead = conn.is_none() && !late;
         if dead {
             machinery("C01: could not establish the observing session".into());
         }
@@ -383,6 +409,8 @@ impl Model for PipeModel {
             policy_pending_reset: false,
             dirty: false,
             since_sync: BTreeSet::new(),
+            unsynced: Vec::new(),
+            tap,
             broken: BTreeSet::new(),
             dead,
         }
@@ -406,11 +434,13 @@ impl Model for PipeModel {
             Op::SoftResetOut => "soft_reset_out",
             Op::RouteRefresh => "route_refresh",
             Op::PolicySwap => "policy_swap",
+            Op::ConnectHeld => "session_up",
             Op::Sync => "sync",
         };
         if kind != "sync" {
             sys.since_sync.insert(kind);
         }
+
         match o {
             Op::Announce { .. } | Op::Withdraw { .. } | Op::PeerDown { .. } | Op::PeerDownStale { .. } | Op::MarkLlgr { .. } | Op::DropStale { .. } | Op::Nh { .. } | Op::PolicySwap => {
                 if !self.rib_apply(&tables, &mut sys.st, o) {
@@ -424,12 +454,48 @@ impl Model for PipeModel {
                     sys.policy_pending_reset = true;
                 }
             }
+            Op::ConnectHeld => {
+                if sys.conn.is_some() {
+                    return false;
+                }
+                let key = Arc::as_ptr(&sys.d.tables) as usize;
+                crate::verif::gate::arm(key, OBS);
+                let conn = sys.rt.block_on(async {
+                    let Ok(Some(mut c)) = connect(&sys.d, OBS, crate::fsm::Role::Passive).await else { return None };
+                    match c.establish(self.peer_asn(), 0x0a0a0a0a, 90, self.peer_caps()).await {
+                        Ok(true) => {}
+                        _ => return None,
+                    }
+                    // let the session task run until it is parked at the gate
+                    for _ in 0..20000 {
+                        if crate::verif::gate::parked(key, OBS) {
+                            return Some(c);
+                        }
+                        tokio::time::sleep(std::time::Duration::from_micros(200)).await;
+                    }
+                    None
+                });
+                if conn.is_none() {
+                    crate::verif::gate::forget(key, OBS);
+                    sys.dead = true;
+                    machinery("C01: the late observing session did not reach the gate after on_established".into());
+                    return false;
+                }
+                sys.conn = conn;
+                sys.dirty = true;
+            }
             Op::SoftResetOut => {
+                if sys.conn.is_none() {
+                    return false;
+                }
                 tables.soft_reset_out(OBS);
                 sys.policy_pending_reset = false;
                 sys.dirty = true;
             }
             Op::RouteRefresh => {
+                if sys.conn.is_none() || crate::verif::gate::parked(Arc::as_ptr(&sys.d.tables) as usize, OBS) {
+                    return false;
+                }
                 let conn = sys.conn.as_mut().unwrap();
                 let ok = sys.rt.block_on(conn.send(&bgp::Message::RouteRefresh { family: F }));
                 if !ok {
@@ -441,10 +507,12 @@ impl Model for PipeModel {
                 sys.dirty = true;
             }
             Op::Sync => {
-                if !sys.dirty || sys.policy_pending_reset {
+                if !sys.dirty || sys.policy_pending_reset || sys.conn.is_none() {
                     return false;
                 }
                 sys.dirty = false;
+                // a held session resumes: what has queued up is delivered before its first flush
+                crate::verif::gate::release(Arc::as_ptr(&sys.d.tables) as usize, OBS);
                 let mut cur: Vec<(String, String)> = Vec::new();
                 let conn = sys.conn.as_mut().unwrap();
                 let mut mirror = std::mem::take(&mut sys.mirror);
@@ -536,6 +604,7 @@ impl Model for PipeModel {
                     }
                 }
                 sys.since_sync.clear();
+                sys.unsynced.clear();
                 let mut now = BTreeSet::new();
                 for (sig, what) in cur {
                     let clause = sig.split('/').nth(1).unwrap_or("").to_string();
@@ -546,6 +615,29 @@ impl Model for PipeModel {
                 }
                 sys.broken = now;
             }
+        }
+        // canonical form of what is queued for the observer: the change events this op produced
+        // (an op without effect on the stream leaves the state where it was); ops addressed to the
+        // session itself are recorded by name
+        let mut produced: Vec<String> = Vec::new();
+        while let Ok(ev) = sys.tap.try_recv() {
+            if let ToPeerEvent::NlriChange(c) = ev {
+                produced.push(format!(
+                    "{}#{}:{}{}:{:?}:{:?}",
+                    c.net,
+                    c.dest_id,
+                    c.best_changed as u8,
+                    c.any_changed as u8,
+                    c.replaced_path_id,
+                    c.current_paths.iter().map(|p| (p.local_path_id, p.source.remote_addr, p.nexthop.map(|n| n.addr()), p.source.is_llgr_stale(), bfs::hash128(&p.attr.iter().flat_map(|a| a.encode_to_bytes()).collect::<Vec<u8>>()) as u32)).collect::<Vec<_>>()
+                ));
+            }
+        }
+        if !matches!(o, Op::Sync) && sys.conn.is_some() {
+            if matches!(o, Op::SoftResetOut | Op::RouteRefresh | Op::ConnectHeld | Op::PolicySwap) {
+                sys.unsynced.push(kind.to_string());
+            }
+            sys.unsynced.extend(produced);
         }
         if take_machinery().is_some() {
             sys.dead = true;
@@ -563,7 +655,7 @@ impl Model for PipeModel {
         let mut loc: Vec<String> = sys.d.tables.collect_loc_rib_paths(F).iter().map(|c| format!("{}#{}:{:?}", c.net, c.dest_id, c.current_paths.iter().map(|p| (p.local_path_id, p.source.remote_addr, p.nexthop.map(|n| n.addr()))).collect::<Vec<_>>())).collect();
         loc.sort();
         // what is queued for the observer is determined by the ops since the last sync: keep them distinct
-        format!("{:?}|{:?}|{:?}|{:?}|{:?}|{}|{}|{:?}|{}|{:?}|{}", rib, loc, sys.mirror, sys.st.src_epoch, sys.st.nh_down, sys.st.policy_on, sys.dirty, sys.broken, sys.dead, sys.st.src_down, sys.policy_pending_reset).into_bytes()
+        format!("{:?}|{:?}|{:?}|{:?}|{:?}|{}|{}|{:?}|{}|{:?}|{:?}", rib, loc, sys.mirror, sys.st.src_epoch, sys.st.nh_down, sys.st.policy_on, sys.dirty, sys.broken, sys.dead, sys.st.src_down, (sys.policy_pending_reset, sys.conn.is_some(), crate::verif::gate::parked(Arc::as_ptr(&sys.d.tables) as usize, OBS), &sys.unsynced)).into_bytes()
     }
 
     fn observe(&self, sys: &Sys) -> u64 {
@@ -631,6 +723,17 @@ fn models(thorough: bool) -> Vec<PipeModel> {
                 ops.push(Op::PolicySwap);
             }
         }
+        if pack == "late" {
+            ops.clear();
+            ops.push(Op::Announce { src: 0, pfx: 0, attr: 0, nh: 0 });
+            ops.push(Op::Announce { src: 0, pfx: 1, attr: 0, nh: 0 });
+            ops.push(Op::Announce { src: 1, pfx: 0, attr: 1, nh: 1 });
+            ops.push(Op::Withdraw { src: 0, pfx: 0 });
+            ops.push(Op::Withdraw { src: 1, pfx: 0 });
+            ops.push(Op::Announce { src: 0, pfx: 0, attr: 1, nh: 0 });
+            ops.push(Op::PeerDown { src: 0 });
+            ops.push(Op::ConnectHeld);
+        }
         if pack == "gr" {
             ops.clear();
             ops.push(Op::Announce { src: 0, pfx: 0, attr: 0, nh: 0 });
@@ -645,7 +748,7 @@ fn models(thorough: bool) -> Vec<PipeModel> {
         ops.push(Op::SoftResetOut);
         ops.push(Op::RouteRefresh);
         ops.push(Op::Sync);
-        PipeModel { name: name.into(), role, send_max, shards, ops, nets, policy_sets_med: pack == "gr" }
+        PipeModel { name: name.into(), role, send_max, shards, ops, nets, policy_sets_med: pack == "gr", late: pack == "late" }
     };
     let mut v = vec![
         mk("c01-ebgp-idreuse", ObsRole::Ebgp, 1, 2, "idreuse"),
@@ -653,6 +756,8 @@ fn models(thorough: bool) -> Vec<PipeModel> {
         mk("c01-ebgp-addpath2", ObsRole::Ebgp, 2, 1, "multi"),
         mk("c01-ibgp-gr", ObsRole::Ibgp, 1, 1, "gr"),
         mk("c01-ebgp-addpath2-gr", ObsRole::Ebgp, 2, 1, "gr"),
+        mk("c01-ebgp-late", ObsRole::Ebgp, 1, 1, "late"),
+        mk("c01-ibgp-addpath2-late", ObsRole::Ibgp, 2, 1, "late"),
     ];
     if thorough {
         v.push(mk("c01-rrclient-multi", ObsRole::RrClient, 1, 2, "multi"));
